@@ -17,7 +17,7 @@ RULE = ('seeded generator: seeds 0..2^32, signal levels 0..1e12 (Gaussian approx
 ASSUMPTIONS = ['statistical bounds are set at >= 7 sigma of the estimator (false-alarm probability < 1e-11 per test)',
                '"rejects" means raises an exception instead of returning a frame']
 PLAN = {'quick': {'gen': 8}, 'thorough': {'gen': 16, 'tests': 1, 'docs': 1}}
-REQUIRED_BUCKETS = ['shot:poisson', 'shot:poisson-large', 'shot:gaussian', 'shot:reject-negative', 'shot:reject-huge', 'shot:reject-array',
+REQUIRED_BUCKETS = ['shot:poisson', 'shot:poisson-large', 'shot:poisson-mixed', 'shot:reject-negative:bright-frame', 'dark:large-rate', 'dark:near-integer-rate', 'shot:gaussian', 'shot:reject-negative', 'shot:reject-huge', 'shot:reject-array',
                     'read_noise', 'read_noise:small-frames', 'read_noise:cube', 'dark:nofpn', 'dark:fpn', 'rule07', 'psd:square', 'psd:nonsquare', 'cosmic', 'cosmic:long-side', 'fresh-process']
 REQUIRED_ANCHORS = ['anchor:shot_noise', 'anchor:read_noise', 'anchor:dark_current', 'anchor:power_spectrum',
                     'anchor:_cosmic_ray', 'anchor:_nrays']
@@ -138,6 +138,28 @@ def workload(ctx, lentil):
         ctx.check(abs(m - lam) <= 1.0 + 7 * np.sqrt(lam / N) and abs(v - lam) <= 1.0 + 7 * lam * np.sqrt(2.0 / N), 'gaussian:moments',
                   'gaussian|moments', 'Gaussian shot noise does not have mean and variance equal to the signal (7 sigma)',
                   {'lam': lam, 'mean': m, 'var': v})
+    # one frame holding both faint pixels and pixels beyond 1e12 counts (a saturated star on a dark sky): every pixel is drawn from
+    # its own distribution
+    for i in range(max(4, n // 10)):
+        lam = float(rng.uniform(0.3, 6))
+        seed = int(rng.integers(0, 2 ** 32))
+        frame = np.full((300, 400), lam)
+        hot = rng.random(frame.shape) < 0.01
+        frame[hot] = float(10 ** rng.uniform(12.5, 18))
+        frame[0, 0] = float(10 ** rng.uniform(13, 18))
+        hot[0, 0] = True
+        ctx.case({'poisson-mixed': lam, 'hot': int(hot.sum()), 'seed': seed}, ['shot:poisson-mixed'])
+        x = np.asarray(D.shot_noise(frame, 'poisson', seed=seed), float)
+        f = x[~hot]
+        ctx.check(bool(np.all(x >= 0) and np.all(x == np.floor(x))), 'poisson:support', 'poisson|support|mixed',
+                  'Poisson shot noise of a frame with faint and very bright pixels is not non-negative and integer-valued', {'lam': lam})
+        Nf = f.size
+        m, v = float(f.mean()), float(f.var(ddof=1))
+        p0 = float(np.mean(f == 0))
+        ctx.check(abs(m - lam) <= 7 * np.sqrt(lam / Nf) and abs(v - lam) <= 7 * np.sqrt((lam + 2 * lam ** 2) / Nf)
+                  and abs(p0 - np.exp(-lam)) <= 7 * np.sqrt(np.exp(-lam) * (1 - np.exp(-lam)) / Nf), 'poisson:moments',
+                  'poisson|moments|mixed', 'the faint pixels of a frame that also holds very bright ones are not Poisson draws of their own signal',
+                  {'lam': lam, 'mean': m, 'var': v, 'p0': p0})
     for i in range(n):
         method = ['poisson', 'gaussian'][i % 2]
         kind = ['neg-scalar', 'neg-array', 'neg-mixed', 'huge-scalar', 'huge-array', 'huge-mixed'][i % 6 if i % 12 < 6 else (i // 2) % 6]
@@ -149,6 +171,14 @@ def workload(ctx, lentil):
             x = -rng.uniform(0.5, 1e4, size=shape)
         elif kind == 'neg-mixed':
             x = ok_vals.copy(); x.flat[int(rng.integers(0, x.size))] = -float(rng.uniform(1, 100))
+            if rng.random() < 0.5 and x.size > 1:
+                # ... next to a saturated star: a count of -50 is negative whatever the brightest pixel holds
+                k_ = int(rng.integers(0, x.size))
+                x.flat[k_] = float(10 ** rng.uniform(9, 16))
+                x.flat[(k_ + 1) % x.size] = -float(rng.uniform(1, 100))
+                if rng.random() < 0.3:
+                    x = np.floor(np.clip(x, -1e18, 9e18)).astype(np.int64)
+                ctx.bucket('shot:reject-negative:bright-frame')
         elif kind == 'huge-scalar':
             x = float(10 ** rng.uniform(19.1, 30))
         elif kind == 'huge-array':
@@ -229,6 +259,13 @@ def workload(ctx, lentil):
                   {'shape': list(x.shape), 'sigma': sig, 'var': float(x.var()), 'var_of_frame_differences': dv})
     for i in range(n):
         rate = float(10 ** rng.uniform(-1, 4))
+        if i % 4 == 1:
+            rate = float(10 ** rng.uniform(7.3, 12))                    # warm infrared arrays: more electrons than single precision counts
+            ctx.bucket('dark:large-rate')
+        elif i % 4 == 3:
+            k_ = int(rng.integers(1, 10 ** int(rng.integers(1, 7))))    # a whisker below / above a whole number of electrons
+            rate = k_ * (1 - float(10 ** rng.uniform(-10, -8))) if i % 8 == 3 else k_ * (1 + float(10 ** rng.uniform(-10, -8)))
+            ctx.bucket('dark:near-integer-rate')
         shape = gen.rshape(rng, 1, 20)
         ctx.case({'dark': rate, 'shape': list(shape)}, ['dark:nofpn'])
         d = np.asarray(D.dark_current(rate, shape), float)
